@@ -262,12 +262,30 @@ def function_stub(repo, module: str, qualname: str, world: Dict[str, Any], state
             if p not in env:
                 if p not in defaults:
                     raise TypeError(f"{qualname}() missing required argument: '{p}'")
-                env[p] = Folder(repo, module, world=world).fold(defaults[p])
+                cache = state.get("defaults")  # a process model (sa/procstate.py): a default is evaluated once, at definition time, and shared by all calls
+                if cache is None:
+                    env[p] = Folder(repo, module, world=world).fold(defaults[p])
+                else:
+                    if (qualname, p) not in cache:
+                        cache[(qualname, p)] = Folder(repo, module, world=world).fold(defaults[p])
+                    env[p] = cache[(qualname, p)]
         if state["depth"] > 12:
             raise Unknown(f"call depth in {qualname}")
         state["depth"] += 1
+        ev = BlockEval(repo, module, env, world=world, max_steps=20000)
         try:
-            kind, val = BlockEval(repo, module, env, world=world, max_steps=20000).run(fi.node.body)
+            kind, val = ev.run(fi.node.body)
+        except Unknown:
+            raise
+        except Exception as ex:
+            # where the exception left the evaluated code: (function, line, statement) of the innermost evaluated function - for messages only
+            if not hasattr(ex, "_sa_origin") and ev.trace:
+                st = ev.trace[-1]
+                try:
+                    ex._sa_origin = (qualname, getattr(st, "lineno", None), ast.unparse(st).split("\n")[0][:90])  # type: ignore[attr-defined]
+                except Exception:
+                    pass
+            raise
         finally:
             state["depth"] -= 1
         return val if kind == "return" else None
@@ -276,9 +294,10 @@ def function_stub(repo, module: str, qualname: str, world: Dict[str, Any], state
     return keyworded(call)
 
 
-def build(repo, module: str, functions: bool = True, extra: Optional[Dict[str, Any]] = None) -> Dict[str, Any]:
+def build(repo, module: str, functions: bool = True, extra: Optional[Dict[str, Any]] = None, state: Optional[Dict[str, Any]] = None) -> Dict[str, Any]:
     """Stand-ins for every Enum class and dataclass visible in `module` (defined there or imported from the package) and,
-    with `functions`, for every undecorated module-level function of `module`; `extra` (rule stubs) wins."""
+    with `functions`, for every undecorated module-level function of `module`; `extra` (rule stubs) wins.
+    `state` (optional) is the bookkeeping shared by the function stubs: {"depth": 0} and, for a process model, "defaults": {}."""
     m = repo.module(module)
     world: Dict[str, Any] = {}
     for name in list(m.imports) + list(m.classes):
@@ -294,7 +313,8 @@ def build(repo, module: str, functions: bool = True, extra: Optional[Dict[str, A
         elif _is_dataclass(c):
             world[name] = record_stub(repo, hm, hn)
     if functions:
-        state = {"depth": 0}
+        state = state if state is not None else {"depth": 0}
+        state.setdefault("depth", 0)
         for q, fi in m.funcs.items():
             if "." not in q and not fi.decorators:
                 world[q] = function_stub(repo, module, q, world, state)
